@@ -90,7 +90,13 @@ def evaluate(seed, tier, props_override=None):
         shutil.rmtree(os.path.join(repo, "target"), ignore_errors=True)
         # the checks, in a private mount namespace
         verif = os.path.join(base, "verif")
-        sh(f"mkdir -p {verif} && cd /verif && tar -c --exclude=./work --exclude=./replays --exclude=./.git . | tar -x -C {verif}")
+        # the COMMITTED state of /verif (edits in progress in the working tree do not leak into an evaluation), plus the
+        # build caches; the harness sources are touched so that cargo rebuilds the harness crate from them whatever the caches hold
+        sh(f"mkdir -p {verif} && git -C /verif archive HEAD | tar -x -C {verif}")
+        for t in ("target", "target-cli"):
+            if os.path.isdir(f"/verif/harness/{t}"):
+                sh(f"cp -r /verif/harness/{t} {verif}/harness/{t}")
+        sh(f"find {verif}/harness/src {verif}/harness/Cargo.toml -type f -exec touch {{}} +")
         res["checks"] = {}
         for p in (props_override or [prop]):
             t0 = time.time()
